@@ -9,7 +9,7 @@ ENTRIES = ['_ZNK6engine8Position15move_is_captureEj', '_ZNK6engine8Position13mov
 SLIDERS = ['_ZN6engine13slider_attackILNS_9PieceKindE3EEEmNS_6SquareEm', '_ZN6engine13slider_attackILNS_9PieceKindE4EEEmNS_6SquareEm', '_ZN6engine13slider_attackILNS_9PieceKindE5EEEmNS_6SquareEm']
 
 def mats(tier):
-    if tier == 'quick': return [material.parse(x) for x in ('KPk', 'Kkp', 'KRk', 'Kkr', 'KBk', 'KNk', 'KQk')]
+    if tier == 'quick': return [material.parse(x) for x in ('KPk', 'Kkp', 'KRk', 'Kkr', 'KNk')]
     return material.M(3) + [material.parse(x) for x in ('KRBk', 'KPkp', 'KRkp', 'KBkn', 'KRRk', 'KQkp', 'KPkr', 'KNkb', 'KRkb', 'KBPk', 'KNPk', 'KPPk', 'KQkq')]
 
 def check(ctx):
@@ -27,7 +27,7 @@ def check(ctx):
     hp = ctx.path('h_c15.c'); open(hp, 'w').write('\n'.join(H) + '\n')
     gb = ctx.gotocc('c15', [c, hp], ['S_USE_BITBOARD_ORACLE']); gbw = ctx.gotocc('c15w', [c, hp], ['WITNESS', 'S_USE_BITBOARD_ORACLE'])
     qs, ws = [], []
-    to = 600 if ctx.tier == 'quick' else 2700
+    to = 900 if ctx.tier == 'quick' else 2700
     for fn, smp, mat in names:
         if ctx.only and not re.search(ctx.only, fn): continue
         us = mc.unwindset(len(mat)); us.update({'cls_case.0': 65, 's_attacked_bb.0': 65, 'sb_fill.0': 8})
